@@ -74,6 +74,9 @@ type Rec struct {
 	Subs [][]string `json:"subs,omitempty"`
 	// Dup renders the first column twice (xml only), so that a field xpath on it matches two nodes.
 	Dup bool `json:"dup,omitempty"`
+	// RawLine, when non-empty, replaces the rendered record by this text (plus line end) in the line-oriented
+	// formats: a malformed row.
+	RawLine string `json:"raw_line,omitempty"`
 }
 
 // BoomToken as value of c0 makes the javascript transform flavour (Xform 2) throw.
@@ -788,6 +791,10 @@ func (s Shape) RenderParts(recs []Rec) (pro string, parts []string, epi string) 
 			pro += fmt.Sprintf("skipped row %d%s", i, eol)
 		}
 		for _, r := range recs {
+			if r.RawLine != "" {
+				parts = append(parts, r.RawLine+eol)
+				continue
+			}
 			parts = append(parts, csvLine(r.Vals, s.Delim)+eol)
 		}
 	case "csv2":
